@@ -25,6 +25,7 @@ OUT = os.path.join(VERIF, "out")
 EVID = os.path.join(VERIF, "evidence")
 KNOWN = os.path.join(VERIF, "known_findings.txt")
 
+CPU_HOOK = ["-D__builtin_cpu_supports=vf_cpu_supports", "-include", os.path.join(HARNESS, "cpu_hook.h")]
 REACH = "VF_REACH"
 MAX_REPLAYS = 6
 IGNORED_DESC = re.compile(r"^memcpy src/dst overlap$")
@@ -89,6 +90,11 @@ REWRITES = [
     # semantics-preserving.
     (re.compile(r"^(\s*)static (const \w+ \w+ = ~\w+;)", re.M), r"\1\2",
      "static const local with ~CONST initialiser -> non-static const local"),
+    # `__always_inline T f(...)` (C99 inline definition, external linkage, never emitted by gcc) is defined with the same
+    # name and different signatures in several units (reim_ctwiddle_avx_fma for 128/256-bit lanes); goto-cc links them as
+    # one symbol.  Making the inline definitions file-local is what gcc's always_inline amounts to.
+    (re.compile(r"^__always_inline ", re.M), "static __always_inline ",
+     "__always_inline function definition -> static __always_inline (file-local, as after gcc inlining)"),
 ]
 
 
@@ -125,6 +131,8 @@ class Ctx:
         self.t0 = time.time()
         self.pool = cf.ThreadPoolExecutor(max_workers=jobs)
         self.notes = []
+        import threading
+        self.lock = threading.RLock()
 
     @property
     def quick(self):
@@ -162,10 +170,15 @@ class Ctx:
         key = (rel, tuple(defs), shim, tuple(extra_inc))
         if key in self.libcache:
             return self.libcache[key]
-        path, incdir = self.staged_source(rel)
+        if rel.endswith(".s"):
+            path, incdir = s2c_sources(self)[rel], os.path.dirname(self.src_path(rel))
+        else:
+            path, incdir = self.staged_source(rel)
+        if shim:
+            validate_shim(self)
         tag = "%04d" % len(self.libcache)
         out = os.path.join(self.scratch.sub("lib"), tag + "_" + rel.replace("/", "_") + ".gb")
-        cmd = ["goto-cc", "-c", "-DNDEBUG", "-D__CPROVER__"]
+        cmd = ["goto-cc", "-c", "-DNDEBUG", "-D__CPROVER__"] + CPU_HOOK
         if shim:
             cmd += ["-I", SHIM]
         for i in extra_inc:
@@ -182,12 +195,90 @@ class BuildError(Exception):
     pass
 
 
+def tables_dir(ctx, ms=(), ns=()):
+    """directory containing vf_tables.h dumped from a native build of the working tree (cached per (ms,ns))"""
+    key = ("tables", tuple(ms), tuple(ns))
+    with ctx.lock:
+        if key in ctx.libcache:
+            return ctx.libcache[key]
+        ar = native_archive(ctx, (), sanitize=False)
+        d = ctx.scratch.sub("tables%d" % len(ctx.libcache))
+        exe = os.path.join(d, "dump_tables")
+        rc, o, e, w, to = run(["gcc", "-O1", "-DNDEBUG"] + CPU_HOOK + ["-I", SRC, os.path.join(VERIF, "tools", "dump_tables.c"), ar, "-o", exe, "-lm"],
+                              timeout=300, mem_gb=64)
+        if rc != 0:
+            raise BuildError("table dumper does not build:\n" + (o + e)[-3000:])
+        rc, o, e, w, to = run([exe, "M", ",".join(str(x) for x in ms) or "1", "N", ",".join(str(x) for x in ns) or "1"], timeout=600, mem_gb=64)
+        if rc != 0 or "VF_UNKNOWN_FUNCTION" in o or "#error" in o:
+            raise BuildError("table dumper failed (rc=%d): %s %s" % (rc, e[-1000:], [l for l in o.split("\n") if "UNKNOWN" in l or "#error" in l][:5]))
+        with open(os.path.join(d, "vf_tables.h"), "w") as f:
+            f.write(o)
+        ctx.libcache[key] = d
+        ctx.notes.append("tables dumped natively from the working tree for m=%s n=%s" % (list(ms), list(ns)))
+        return d
+
+
+def validate_shim(ctx):
+    """bit-for-bit differential test of shim/immintrin.h against the real header (native); once per run"""
+    with ctx.lock:
+        if "shim_ok" in ctx.libcache:
+            return
+        d = ctx.scratch.sub("shimtest")
+        exe = os.path.join(d, "shimtest")
+        rc, o, e, w, to = run(["gcc", "-O1", "-mavx2", "-mfma", "-mavx512f", "-mavx512dq", "-mavx512vl", os.path.join(VERIF, "tools", "shimtest.c"), "-o", exe, "-lm"],
+                              timeout=300, mem_gb=64)
+        if rc != 0:
+            raise BuildError("shimtest does not build: " + (o + e)[-2000:])
+        rc, o, e, w, to = run([exe], timeout=300, mem_gb=64)
+        if rc != 0 or "shimtest: 0 mismatches" not in o:
+            raise BuildError("ENCODING INVALID: shim/immintrin.h disagrees with the real intrinsics:\n" + o[-2000:])
+        ctx.libcache["shim_ok"] = o.strip().split("\n")[-1]
+        ctx.notes.append(ctx.libcache["shim_ok"])
+
+
+S_KERNELS = ["reim/reim_fft16_avx_fma.s", "reim/reim_ifft16_avx_fma.s", "cplx/cplx_fft16_avx_fma.s", "cplx/cplx_ifft16_avx_fma.s"]
+
+
+def s2c_sources(ctx):
+    """transpile the four .s leaf kernels of the working tree to C (scratch), validate the transpiled C natively against
+    the assembled .s (bit-for-bit on random/edge data); returns {rel.s: path.c}"""
+    with ctx.lock:
+        if "s2c" in ctx.libcache:
+            return ctx.libcache["s2c"]
+        d = ctx.scratch.sub("s2c")
+        out = {}
+        val = []
+        for rel in S_KERNELS:
+            base = os.path.basename(rel)[:-2]
+            for suffix, lst in (("", None), ("_s2c", val)):
+                rc, o, e, w, to = run(["python3", os.path.join(VERIF, "tools", "s2c.py"), os.path.join(SRC, rel), "--suffix", suffix], timeout=60)
+                if rc != 0:
+                    raise BuildError("s2c refused %s: %s" % (rel, e[-500:]))
+                pth = os.path.join(d, base + suffix + ".c")
+                open(pth, "w").write(o)
+                if lst is None:
+                    out[rel] = pth
+                else:
+                    lst.append(pth)
+        exe = os.path.join(d, "s2c_validate")
+        rc, o, e, w, to = run(["gcc", "-O1", "-mavx2", "-mfma", os.path.join(VERIF, "tools", "s2c_validate.c")] + val +
+                              [os.path.join(SRC, r) for r in S_KERNELS] + ["-o", exe], timeout=300, mem_gb=64)
+        if rc != 0:
+            raise BuildError("s2c validation does not build: " + (o + e)[-2000:])
+        rc, o, e, w, to = run([exe], timeout=300, mem_gb=64)
+        if rc != 0 or "s2c validation: 0 mismatches" not in o:
+            raise BuildError("ENCODING INVALID: transpiled .s kernels disagree with the assembled ones:\n" + o[-2000:])
+        ctx.libcache["s2c"] = out
+        ctx.notes.append("asm leaves transpiled by tools/s2c.py and validated natively: " + o.strip().split("\n")[-1])
+        return out
+
+
 class Ob:
     """one obligation = one harness instance decided by one CBMC run"""
 
     def __init__(self, name, harness, entry, defs=None, libs=(), unwind=40, flags=(), timeout=None,
                  libdefs=(), desc="", family=None, expect_fail=None, mem_gb=10, unwindset=None,
-                 native_libs=None, extra_src=()):
+                 native_libs=None, extra_src=(), inc=()):
         self.name = name
         self.harness = harness  # file under /verif/harness
         self.entry = entry
@@ -203,6 +294,22 @@ class Ob:
         self.unwindset = unwindset
         self.native_libs = native_libs  # sources for the native replay build (default: libs)
         self.extra_src = list(extra_src)  # generated C files (absolute paths) linked in
+        self.inc = list(inc)  # extra include directories (e.g. the dumped tables)
+
+
+class AlgOb(Ob):
+    """obligation decided in two steps on the same harness instance:
+      (1) bit-precise CBMC run (memory safety, unwinding, reachability; data sliced away), then
+      (2) `cbmc --smt2 --outfile` export of the verification condition, re-interpreted by vcalg in an
+          algebraic domain and decided by the analysis function `module:function` (which uses z3/cvc5).
+    The analysis runs in its own python process (big recursion stack, no GIL contention)."""
+
+    def __init__(self, name, harness, entry, analysis, params=None, bit_flags=("--slice-formula",), export_flags=(), **kw):
+        Ob.__init__(self, name, harness, entry, **kw)
+        self.analysis = analysis
+        self.params = dict(params or {})
+        self.bit_flags = list(bit_flags)
+        self.export_flags = list(export_flags)
 
 
 class Res:
@@ -218,6 +325,7 @@ class Res:
         self.inputs = None
         self.replay = None  # dict describing the native replay
         self.known = None
+        self.alg = None  # result dict of the algebraic analysis
 
 
 CBMC_BASE = ["--no-malloc-may-fail", "--unwinding-assertions", "--drop-unused-functions",
@@ -236,7 +344,7 @@ def build_instance(ctx, ob, idx):
     objs = [ctx.gotocc_obj(l, ob.libdefs) for l in ob.libs]
     d = ctx.scratch.sub("inst")
     out = os.path.join(d, "i%05d.gb" % idx)
-    cmd = ["goto-cc", "-DNDEBUG", "-D__CPROVER__", "-I", SHIM, "-I", HARNESS, "-I", SRC] + defs_args(ob.defs) + \
+    cmd = ["goto-cc", "-DNDEBUG", "-D__CPROVER__"] + CPU_HOOK + ["-I", SHIM, "-I", HARNESS, "-I", SRC] + sum([["-I", i] for i in ob.inc], []) + defs_args(ob.defs) + \
           ["-D" + x for x in ob.libdefs] + \
           [os.path.join(HARNESS, ob.harness)] + ob.extra_src + objs + ["-o", out, "--function", ob.entry]
     rc, o, e, w, to = run(cmd, timeout=300)
@@ -274,6 +382,8 @@ def parse_cbmc_json(txt):
 
 def cbmc_cmd(ob, binary, extra=()):
     cmd = ["cbmc", binary, "--function", ob.entry, "--unwind", str(ob.unwind)] + CBMC_BASE + ob.flags + list(extra)
+    if isinstance(ob, AlgOb):
+        cmd += ob.bit_flags
     if ob.unwindset:
         cmd += ["--unwindset", ob.unwindset]
     return cmd
@@ -335,6 +445,56 @@ def run_ob(ctx, ob, idx):
         r.detail = "harness has no reachability witness"
         return r
     r.status = "PASS"
+    if isinstance(ob, AlgOb):
+        return run_alg(ctx, ob, idx, binary, r, t0)
+    return r
+
+
+def run_alg(ctx, ob, idx, binary, r, t0):
+    d = ctx.scratch.sub("alg")
+    smt = os.path.join(d, "i%05d.smt2" % idx)
+    timeout = ob.timeout or (300 if ctx.quick else 3000)
+    cmd = ["cbmc", binary, "--function", ob.entry, "--unwind", str(ob.unwind), "--no-standard-checks", "--no-malloc-may-fail",
+           "--drop-unused-functions", "--max-field-sensitivity-array-size", "16384", "--object-bits", "12",
+           "--smt2", "--fpa", "--outfile", smt] + ob.export_flags
+    if ob.unwindset:
+        cmd += ["--unwindset", ob.unwindset]
+    rc, o, e, w, to = run(cmd, timeout=timeout, mem_gb=ob.mem_gb)
+    if to or not os.path.exists(smt):
+        r.status = "INCONCLUSIVE"
+        r.detail = "VC export failed or timed out: " + (o + e)[-400:]
+        r.wall = time.time() - t0
+        return r
+    spec = {"smt2": smt, "analysis": ob.analysis, "params": ob.params, "name": ob.name, "scratch": d}
+    env = dict(os.environ)
+    env["PYTHONPATH"] = os.path.join(VERIF, "tools")
+    rc, o, e, w, to = run(["python3-vt", "-m", "vf.algrun"], timeout=timeout, mem_gb=max(ob.mem_gb, 16), env=env, stdin=json.dumps(spec))
+    try:
+        os.remove(smt)
+    except OSError:
+        pass
+    r.wall = time.time() - t0
+    if to:
+        r.status = "INCONCLUSIVE"
+        r.detail = "algebraic analysis timed out after %ds" % timeout
+        return r
+    try:
+        out = json.loads(o.strip().split("\n")[-1])
+    except Exception:
+        r.status = "INCONCLUSIVE"
+        r.detail = "analysis produced no result (rc=%d): %s" % (rc, (e or o)[-1500:])
+        return r
+    r.alg = out
+    r.solver_s += out.get("solver_s", 0.0)
+    if out["status"] == "PASS":
+        r.status = "PASS"
+    elif out["status"] == "FAIL":
+        r.status = "FAIL"
+        r.failed = [("alg", out.get("detail", "")[:500], ob.analysis, "")]
+        r.inputs = out.get("replay_inputs")
+    else:
+        r.status = "INCONCLUSIVE"
+        r.detail = out.get("detail", "")[:1500]
     return r
 
 
@@ -369,7 +529,7 @@ def native_replay(ctx, ob, inputs, tag):
     rpath = os.path.join(OUT, "replay", ctx.prop, re.sub(r"[^A-Za-z0-9_.=-]", "_", ob.name) + ".json")
     rec = {"property": ctx.prop, "obligation": ob.name, "harness": ob.harness, "entry": ob.entry,
            "defs": ob.defs, "libs": ob.libs, "libdefs": list(ob.libdefs), "inputs": [str(x) for x in (inputs or [])],
-           "native_libs": ob.native_libs, "extra_src_note": [os.path.basename(x) for x in ob.extra_src]}
+           "native_libs": ob.native_libs, "extra_src_note": [os.path.basename(x) for x in ob.extra_src], "inc": ob.inc}
     with open(rpath, "w") as f:
         json.dump(rec, f, indent=1)
     ok, text = replay_record(ctx, rec, d, extra_src=ob.extra_src)
@@ -396,12 +556,8 @@ _native_lock = None
 def native_archive(ctx, libdefs=(), sanitize=True):
     """the whole library of the working tree, built natively with the real <immintrin.h>
     (per-file ISA flags as in spqlios/CMakeLists.txt), as a static archive; cached per run."""
-    import threading
-    global _native_lock
-    if _native_lock is None:
-        _native_lock = threading.Lock()
     key = ("native", tuple(libdefs), sanitize)
-    with _native_lock:
+    with ctx.lock:
         if key in ctx.libcache:
             return ctx.libcache[key]
         d = ctx.scratch.sub("native%d" % len(ctx.libcache))
@@ -409,7 +565,7 @@ def native_archive(ctx, libdefs=(), sanitize=True):
         jobs = []
         for rel in all_lib_sources():
             o = os.path.join(d, rel.replace("/", "_") + ".o")
-            cmd = ["gcc", "-O1", "-g", "-DNDEBUG", "-fno-strict-aliasing", "-I", SRC, "-c", os.path.join(SRC, rel), "-o", o]
+            cmd = ["gcc", "-O1", "-g", "-DNDEBUG", "-fno-strict-aliasing"] + (CPU_HOOK if rel.endswith(".c") else []) + ["-I", SRC, "-c", os.path.join(SRC, rel), "-o", o]
             cmd += ["-D" + x for x in libdefs]
             if rel in AVX512_FILES:
                 cmd += ["-mfma", "-mavx512f", "-mavx512vl", "-mavx512dq"]
@@ -438,8 +594,8 @@ def native_build(ctx, rec, d, extra_src=(), sanitize=True):
         ar = native_archive(ctx, tuple(rec.get("libdefs", [])), sanitize)
     except BuildError as ex:
         return None, str(ex)
-    cmd = ["gcc", "-O1", "-g", "-DNDEBUG", "-DVF_NATIVE", "-mavx2", "-mfma", "-mbmi2", "-fno-strict-aliasing",
-           "-I", HARNESS, "-I", SRC]
+    cmd = ["gcc", "-O1", "-g", "-DNDEBUG", "-DVF_NATIVE", "-mavx2", "-mfma", "-mbmi2", "-fno-strict-aliasing"] + CPU_HOOK + \
+          ["-I", HARNESS, "-I", SRC] + sum([["-I", i] for i in rec.get("inc", [])], [])
     if sanitize:
         cmd += ["-fsanitize=address", "-fno-omit-frame-pointer"]
     cmd += defs_args(rec["defs"]) + ["-D" + x for x in rec.get("libdefs", [])]
@@ -595,13 +751,15 @@ def finish(ctx, results, meta, extra_results=()):
     wall = time.time() - ctx.t0
     solver = sum(r.solver_s for r in results) + sum(x.get("solver_s", 0) for x in extra_results)
     samples = []
-    seen = set()
-    for r in results:
-        if r.ob.family not in seen and r.status == "PASS":
-            seen.add(r.ob.family)
+    lastfam = {}
+    for i, r in enumerate(results):
+        if r.status == "PASS":
+            lastfam[r.ob.family] = i  # the last (usually largest) instance of each family is written out
+    for i, r in enumerate(results):
+        if lastfam.get(r.ob.family) == i:
             samples.append({"obligation": r.ob.name, "harness": r.ob.harness + ":" + r.ob.entry,
                             "shape": r.ob.defs, "what": r.ob.desc, "cbmc_properties": r.nprops,
-                            "wall_s": round(r.wall, 2)})
+                            "wall_s": round(r.wall, 2), **({"algebraic": r.alg.get("stats", {})} if r.alg else {})})
     for x in extra_results[:6]:
         samples.append({"obligation": x["name"], "what": x.get("desc", ""), "status": x["status"],
                         "wall_s": round(x.get("wall", 0), 2)})
@@ -632,7 +790,7 @@ def finish(ctx, results, meta, extra_results=()):
                                     "signed-overflow / undefined-shift (GCC-defined behaviour the library relies on; see DESIGN.md 2.1)"],
             "exhaustive": False,
         },
-        "assumptions": meta.get("assumptions", []),
+        "assumptions": meta.get("assumptions", []) + ctx.notes,
         "wall_s": round(wall, 2),
         "violations": n_fail,
     }
